@@ -530,7 +530,8 @@ def main():
                                     "modelled not verified: std::sort in createFront of the 2-D subset selection is libstdc++'s insertion sort (n <= 16; the selection vector is compared for n <= 16 only; the theorem covers every arrangement sorted by the first objective); double comparisons of intersection abscissae with the 1e-10 tolerance are exact rational comparisons on small integer coordinates",
                                     "modelled not verified: exp(sum(log(ref - p))) in HypervolumeContributionMD is the exact product of the edge lengths (compared at 1e-9); -inf (= -DBL_MAX) of the sentinels in HypervolumeContribution3D is any value below all coordinates; Box::upper.f3 there is dead data",
                                     "modelled not verified: bestContributors (heap of k+1 slots, push_heap / pop_heap / sort_heap) of the 2-D contribution code is 'the k best entries in sorted order'; the order among equal contributions is left open by the code and by the theorems",
-                                    "not proved, differential test only: HOY (4 objectives; the hypervolume front end and the MD contributions are proved for every other dimension), subset selection without reference point"]
+                                    "modelled not verified: HOY's double arithmetic on half-integer split bounds is exact (the model C13Hoy.v computes on the doubled integers; value, recursion tree, getMedian and computeTrellis are compared with the code on every run); the order std::sort leaves equal last objectives in is a parameter of the theorem",
+                                    "not proved, differential test only: subset selection without reference point"]
     ck.assumptions = ["integer objective values (products of at most 5 integers <= 13 are exact in double, comparison is equality; MD contributions use exp(sum(log)) and are compared at 1e-9 relative to the total hypervolume)",
                       "reference point weakly dominated by every point (ref_i >= max coordinate, mostly strictly)",
                       "contribution queries: mutually non-dominated sets with duplicates, 1 <= k <= n, overloads WITH reference point in the main stream; overloads without reference point in a separate stream",
@@ -564,7 +565,7 @@ def main():
         touch = q != "R" and any(x == r for p in P for x, r in zip(p, ref))
         return "%s d=%d n=%d%s: %s" % (q, d, len(P), " point-on-reference-boundary" if touch else "", msg)
     r = correspond(ck, main_cases, model, exe, monitor, tmpd, compare=compare, impl_env=env,
-                   what="C13Model/C13Dc/C13Wfg/C13Sweep3d (rank_list, fast_nds, dc_nds, nds_front, hv_spec, hv2d, hv3d, wfg, wfg_limit, hssp2d, contribs_spec, best_subset_hv) vs shark nonDominatedSort/Hypervolume*",
+                   what="C13Model/C13Dc/C13Wfg/C13Sweep3d/C13Hoy (rank_list, fast_nds, dc_nds, nds_front, hv_spec, hv2d, hv3d, wfg, wfg_limit, hoy, hoy_stream + trace, hssp2d, contribs_spec, best_subset_hv) vs shark nonDominatedSort/Hypervolume*",
                    search=search, keyfn=keyfn)
     stats = model_checks(ck, main_cases, r["model_out"])
 
@@ -618,7 +619,7 @@ def main():
                       "(few distinct values, constant last objectives, chains, sizes around the front-end switch) and of the 3-D contribution sweep "
                       "(equal coordinates between different points, duplicates, points on the reference boundary), "
                       "single-coordinate ties, collinear and dominated points; queries R (ranks: dispatcher, fast, DC; n<=40), "
-                      "H (hypervolume: front end, 2D, 3D, HOY, WFG and WFG's limit set of the first point, each next to its extracted model; n<=40), K (smallest/largest-k contributions with reference, "
+                      "H (hypervolume: front end, 2D, 3D, HOY, WFG and WFG's limit set of the first point, each next to its extracted model; n<=40), Y (direct calls of HOY's stream on doubled data incl. half-integer regions: value, recursion tree, getMedian, computeTrellis next to the model; n<=20), K (smallest/largest-k contributions with reference, "
                       "dispatcher + 2D/3D + MD; n<=18), S (2-D subset selection: selection vector equal to the extracted model's, optimal vs brute force; n<=10), N (contributions without reference, "
                       "separate stream); non-trivial = at least 3 points and (a duplicate or a dominated point or a K/N/S query); distinct = distinct case text")
     ck.cov["samples"] = cases[:2]
@@ -628,7 +629,8 @@ def main():
     ck.finish(explanation="dominance, rank definition (existence/uniqueness/consistent fronts), fast sort, hv_spec invariances, the 2-D sweep, the 3-D sweep, "
               "the WFG recursion, the 2-D contributions and the 2-D subset selection (upper envelope + dynamic programme) are proved (models run next to the code on every case); "
               "the divide-and-conquer sort and the sorting front end, the MD and 3-D contributions, the contribution front end and the overloads without reference point are proved too; "
-              "HOY (4 objectives) is an exact differential test against the proved spec functions")
+              "HOY (HypervolumeCalculatorMDHOY, the front end's algorithm for 4 objectives) is proved equal to hv_spec for every number of objectives (model C13Hoy.v run next to the code: "
+              "value for 3-5 objectives, direct calls of stream with the recursion tree read from the real code, getMedian, computeTrellis)")
 
 if __name__ == "__main__":
     main()
